@@ -25,17 +25,23 @@ EXHAUSTIVE = {'quick': False, 'thorough': False}
 ASSUMPTIONS = [
     'axis 1 reduces "the rows of its values": the reference line of a row is the consolidated row frame.iloc[r] (resolved row dtype)',
     'reference (2) reuses NumPy reductions (np.sum/np.nansum/...) on the raw 1-D array for numeric/bool lines; all/any, the arg '
-    'functions, str, datetime and object lines use a plain-Python model written from the statement',
+    'functions, str, datetime and object lines use a plain-Python model written from the statement; where the library 1-D path '
+    'itself violates the model that is reported once (series_path_differs_from_model) and the frame is judged against the model',
     'close strength: rel 1e-9 (scaled to the float precision of the result dtype for float16/float32) plus an absolute term '
     'proportional to the largest finite magnitude of the line (summation order differs between block-wise and line-wise evaluation)',
-    'the result Series has one dtype: an expected int may be presented as the numerically identical float / bool-as-int; '
-    'an expected float is compared close',
-    'int cells are kept small enough that int64 accumulation cannot overflow (prod/cumprod cells clipped to 2**31)',
+    'the result Series has one dtype: an expected int may be presented as the numerically identical float / bool (and a bool as '
+    '0/1 for sum/prod/cumsum/cumprod); NaN / NaT / None are one missing marker; an expected float is compared close',
+    'int cells are kept small enough that int64 accumulation cannot overflow (prod/cumprod lines tamed to |product| < 2**62)',
     'without skipna a line holding a missing cell must give a missing result or raise; a frame may raise when some line raises '
     '(same class as one of the raising lines)',
+    'not judged (statement silent / value undefined): arg functions over empty lines, arg ties between NaN and a genuine +-inf '
+    'extreme (NumPy nanarg* fill), std/var with ddof >= count (must be non-finite), the empty sum of strings',
     'domain: every fn on numeric/bool lines (ordering fns not on complex); sum/min/max/all/any on str; min/max on datetime; '
     'sum/prod/min/max/mean/all/any/cumsum/cumprod on object lines holding numbers/bools/None/NaN; outside the domain only '
-    '"the frame must not raise when every line reduces" and layout independence of the outcome kind are judged',
+    'layout independence of the outcome kind is judged, plus "the frame must not raise when every line reduces" for '
+    'median/std/var of numeric object lines (DESIGN C15 Expect iv)',
+    'cells of 0-row logical reductions that the library leaves uninitialised are never compared by value: the verdict comes from a '
+    'deterministic probe of the block-level function with a poisoned out= buffer',
 ]
 TIERS = {'quick': {'shards': 8, 'budget_s': 150, 'min_nontrivial': 4000},
          'thorough': {'shards': 16, 'budget_s': 1500, 'min_nontrivial': 60000}}
@@ -58,7 +64,7 @@ REQUIRED_ANCHORS = ['type_blocks.TypeBlocks.ufunc_axis_skipna', 'type_blocks.Typ
 REQUIRED_TALLIES = [('branch', 'unified'), ('branch', 'axis0_multi'), ('branch', 'axis1_composable'), ('branch', 'axis1_consolidate'),
                     ('branch', 'size_one_unity'), ('branch', 'shape_values'), ('branch', 'argminmax_2d'),
                     ('rows', '0'), ('rows', '1'), ('cols', '0'), ('cols', '1'),
-                    ('judged', 'full'), ('judged', 'kind_only'), ('uninitialised_class', 'probed')]
+                    ('judged', 'full'), ('judged', 'kind_only'), ('judged', 'layout_independence_only'), ('uninitialised_class', 'probed')]
 
 FNS_REDUCE = ('sum', 'prod', 'min', 'max', 'mean', 'median', 'std', 'var', 'all', 'any')
 FNS_CUM = ('cumsum', 'cumprod')
@@ -167,7 +173,7 @@ def _tame_prod(cells, axis, rng):
             v = cells[i][j]
             if isinstance(v, int) and not isinstance(v, bool):
                 if acc * max(abs(v), 1) >= 2 ** 62:
-                    v = cells[i][j] = rng.choice([0, 1, 2, 3]) if v >= 0 else rng.choice([-1, -2, -3])
+                    v = cells[i][j] = rng.choice([0, 1]) if v >= 0 else -1
                 acc *= max(abs(v), 1)
     return cells
 
@@ -204,7 +210,7 @@ def generate(ctx):
     ops = list(OPS)
     rng.shuffle(ops)
     limit = 6 if ctx.tier == 'quick' else 12
-    n = ctx.n(14000, 260000)
+    n = ctx.n(14000, 200000)
     for i in range(n):
         op = ops[i % len(ops)]
         nr = nc = None
@@ -219,35 +225,63 @@ def generate(ctx):
         yield {'spec': spec, 'op': op, 'layouts': _pick_layouts(spec.dtypes, rng, limit), 'strategy': strategy}
 
 
-def _mk(dtypes, cols_values, rows=None, cols=None):
-    nr = len(cols_values[0]) if cols_values else 0
+def _mk(dtypes, cols_values, rows=None, row_kind=None, nrows=None):
+    nr = len(cols_values[0]) if cols_values else (nrows or 0)
     cells = [[V.normalize(dtypes[j], cols_values[j][i]) for j in range(len(dtypes))] for i in range(nr)]
-    return F.FrameSpec(rows if rows is not None else list(range(nr)), cols if cols is not None else [f'c{j}' for j in range(len(dtypes))],
-                       'auto' if rows is None else 'str', 'str', dtypes, cells, None)
+    return F.FrameSpec(rows if rows is not None else list(range(nr)), [f'c{j}' for j in range(len(dtypes))],
+                       row_kind or ('auto' if rows is None else 'str'), 'str', dtypes, cells, None)
 
 
 def probes(ctx):
-    """One literal case per known finding."""
+    """One literal case per known finding (known_findings.d/C15.json), so that every KNOWN-FINDING line is printed on every run."""
     P = []
+    NAN, NAT = float('nan'), 'NaT'
 
     def add(spec, op, layouts):
         P.append({'spec': spec, 'op': op, 'layouts': layouts, 'strategy': 'probe'})
 
-    one_d2 = [(0, 1, False), (1, 2, False)]
-    two_d = [(0, 2, True)]
-    add(_mk(['int8', 'int8'], [[127, 127, 5], [1, 2, 3]]), ('sum', 0, True, None), [two_d, one_d2])
-    add(_mk(['uint8', 'uint8'], [[250, 250, 3], [1, 2, 3]]), ('sum', 0, True, None), [two_d, one_d2])
-    add(_mk(['bool', 'bool'], [[True, True, True], [True, False, True]]), ('sum', 0, True, None), [two_d, one_d2])
-    add(_mk(['<U1', '<U1'], [['a', 'b', 'c'], ['x', 'y', 'z']]), ('sum', 0, True, None), [two_d, one_d2])
-    add(_mk(['complex128', 'complex128'], [[1 + 2j, 3 - 1j, 0j], [1j, 2j, 1 + 0j]]), ('var', 0, True, 0), [two_d, one_d2])
-    add(_mk(['int64', 'float64'], [[2 ** 53 + 1, 0], [1.5, 2.5]]), ('sum', 0, True, None), [one_d2])
-    add(_mk(['int64', 'float64'], [[1], [2.5]]), ('sum', 0, False, None), [one_d2])
-    add(_mk(['int64', '<U1'], [[1], ['a']]), ('max', 0, False, None), [one_d2])
-    add(_mk(['float64', 'float64'], [[], []]), ('all', 0, True, None), [two_d])
+    L11 = [(0, 1, False), (1, 2, False)]          # two 1-D blocks
+    L2 = [(0, 2, True)]                           # one 2-D block (unified)
+    LD = [(0, 1, True), (1, 2, True)]             # two n x 1 blocks
+    # out buffer of the row dtype: signed / unsigned / bool / str / float / complex
+    add(_mk(['int8', 'int8'], [[127, 127, 5], [1, 2, 3]]), ('sum', 0, True, None), [L2, L11])
+    add(_mk(['uint8', 'uint8'], [[250, 250, 3], [1, 2, 3]]), ('sum', 0, True, None), [L2, L11])
+    add(_mk(['bool', 'bool'], [[True, True, True], [True, False, True]]), ('sum', 0, True, None), [L2, L11])
+    add(_mk(['<U1', '<U1'], [['a', 'b', 'c'], ['x', 'y', 'z']]), ('sum', 0, True, None), [L2, L11])
+    add(_mk(['int64', 'float64'], [[2 ** 53 + 1, 0], [1.5, 2.5]]), ('sum', 0, True, None), [L11])
+    add(_mk(['int64', 'complex128'], [[2 ** 53 + 1, 0], [1 + 2j, 2.5 + 0j]]), ('sum', 0, True, None), [L11])
+    add(_mk(['uint8', 'float16'], [[255, 255, 250, 250, 2, 0], [0.0, 0.5, 0.5, 3.0, 0.5, 1.0]]), ('std', 0, False, 0), [L11])
+    add(_mk(['float64', 'complex128'], [[float('-inf'), 1.5], [3 + 0j, 0j]]), ('prod', 0, True, None), [L11])
+    add(_mk(['int64', 'float64'], [[2 ** 53 + 1, 2], [1.5, 2.5]]), ('cumsum', 0, True, None), [L11])
+    add(_mk(['complex128', 'complex128'], [[1 + 2j, 3 - 1j, 0j], [1j, 2j, 1 + 0j]]), ('var', 0, True, 0), [L2, L11])
+    add(_mk(['bool', 'float64'], [[True, False], [NAN, NAN]]), ('min', 0, True, None), [L11])
+    # size_one_unity
+    add(_mk(['int64', 'float64'], [[1], [2.5]]), ('sum', 0, False, None), [L11])
+    add(_mk(['int64', '<U1'], [[1], ['a']]), ('max', 0, False, None), [L11])
+    # 0 rows / 0 columns
+    add(_mk(['float64', 'float64'], [[], []]), ('all', 0, True, None), [L2])
     add(_mk(['float64', 'float64', 'float64'], [[], [], []]), ('any', 0, True, None), [[(0, 2, True), (2, 3, False)]])
-    add(_mk(['float64', 'float64'], [[], []]), ('all', 1, True, None), [one_d2])
-    add(_mk(['bool', 'int64'], [[True, False], [3, 4]]), ('median', 1, True, None), [one_d2])
-    add(_mk(['bool', 'int64'], [[True, False], [3, 4]]), ('std', 1, True, 0), [one_d2])
+    add(_mk(['float64', 'float64'], [[], []]), ('all', 1, True, None), [L11])
+    add(_mk([], [], nrows=2), ('sum', 1, True, None), [[]])
+    add(_mk(['float64', 'float64'], [[], []]), ('loc_min', 1, False, None), [L11])
+    # 2-D object arrays
+    add(_mk(['bool', 'int64'], [[True, False], [3, 4]]), ('median', 1, True, None), [L11])
+    add(_mk(['bool', 'int64'], [[True, False], [3, 4]]), ('std', 1, True, 0), [L11])
+    # arg functions
+    add(_mk(['int64', 'int64'], [[3, 1, 2], [1, 5, 0]], rows=[('a', 1), ('a', 2), ('b', 1)], row_kind='hier2'), ('loc_min', 0, True, None), [L11])
+    add(_mk(['float64', 'float64'], [[1.0, NAN, 3.0], [NAN, NAN, NAN]]), ('iloc_min', 0, True, None), [L11])
+    # missing-value handling of the element paths (Series and Frame alike)
+    add(_mk(['M8[D]', 'M8[D]'], [['2020-01-01', NAT, '1999-12-31'], ['2001-06-15', '2020-01-02', '1970-01-01']]), ('min', 0, True, None), [L2])
+    add(_mk(['float32', 'm8[D]'], [[0.5, NAN], [NAT, NAT]]), ('all', 1, True, None), [L11])
+    add(_mk(['object', 'object'], [[None, None], [1, 2.5]]), ('sum', 0, True, None), [L11])
+    add(_mk(['object', 'object'], [[1, NAN, 2.5], [1, 2, 3]]), ('max', 0, False, None), [L2])
+    add(_mk(['object', 'object'], [[1, None, 2], [1, 2, 3]]), ('cumsum', 0, True, None), [L2])
+    # outside the domain: layout-dependent outcome kind
+    add(_mk(['M8[D]', 'M8[D]'], [['2020-01-01', '1999-12-31'], ['2001-06-15', '2020-01-02']]), ('var', 0, True, 0), [L2, L11])
+    add(_mk(['m8[D]', 'm8[D]'], [[1], [7]]), ('sum', 0, False, None), [L2, L11])
+    add(_mk(['M8[D]', 'M8[D]'], [[], []]), ('all', 0, True, None), [L2, L11])
+    add(_mk(['float64', 'M8[D]'], [[1.0, 2.0], ['2001-06-15', NAT]]), ('sum', 0, True, None), [L11, LD])
+    add(_mk(['complex128', 'M8[D]'], [[], []]), ('max', 0, True, None), [L11, LD])
     return P
 
 
@@ -351,7 +385,7 @@ def _tolerance(fn, n, mag, eps):
     return rel, max(abs_, 1e-12)
 
 
-def _eq(e, g, rel, abs_):
+def _eq(e, g, rel, abs_, arithmetic=False):
     """expected vs got (raw elements).  bool exact (an expected int may be presented as the numerically equal
     bool); int exact (also when presented as a float); float/complex close; labels / strings / dates at label strength."""
     ce, cg = cs(e), cs(g)
@@ -363,12 +397,11 @@ def _eq(e, g, rel, abs_):
     if ke == 'bool' or kg == 'bool':
         if ke == 'int' and kg == 'bool':
             return int(cg[1]) == ce[1]
+        if arithmetic and ke == 'bool' and kg == 'int':   # sum / prod of bools: True/False or the equal 1/0
+            return int(ce[1]) == cg[1]
         return False
     num = ('int', 'float', 'complex')
     if ke in num and kg in num:
-        if ke == 'float' and kg == 'complex' and not math.isfinite(float(e)):
-            # a real column computed in a complex out buffer: inf arithmetic leaves nan in the imaginary part
-            return canon.ceq(ce, cs(complex(g).real), rel, abs_)
         if ke == 'int':
             return canon.veq(ce, cg)
         return canon.ceq(ce, cg, rel, abs_)
@@ -556,6 +589,10 @@ def _fits(v, dtype):
             return isinstance(v, (bool, np.bool_))
         if dtype.kind == 'U':
             return isinstance(v, str) and len(v) <= dtype.itemsize // 4
+        if dtype.kind == 'c':
+            if isinstance(v, (int, np.integer)) and not isinstance(v, (bool, np.bool_)):
+                return _fits(v, np.dtype(f'float{dtype.itemsize * 4}'))
+            return True
         if dtype.kind == 'f':
             if isinstance(v, (int, np.integer)) and not isinstance(v, (bool, np.bool_)):
                 with np.errstate(all='ignore'):
@@ -584,7 +621,8 @@ def _base_klass(case, spec, lay, row_dtype):
 def _line_klass(base, ln, lay, j, axis, row_dtype):
     k = dict(base)
     k.update(line_kind=ln.kind, line_dtype=str(ln.arr.dtype), line_missing=ln.missing, in_domain=ln.in_domain,
-             big_int=ln.big_int, holds_bool=ln.holds_bool, series_path_ok=not ln.ref_bad)
+             big_int=ln.big_int, holds_bool=ln.holds_bool, series_path_ok=not ln.ref_bad,
+             has_inf=bool(ln.kind in 'fc' and np.isinf(ln.arr).any()))
     if axis == 0:
         k['block'] = _block_of(lay, j)
     if ln.expect[0] == 'val' and row_dtype is not None:
@@ -855,7 +893,7 @@ def _judge_series(ctx, case, spec, lay, base, res, lines, exp_labels, full, viol
         if ln.degenerate:
             ok = isinstance(g, (float, np.floating)) and not math.isfinite(g)
         else:
-            ok = _eq(e[1], g, rel, abs_)
+            ok = _eq(e[1], g, rel, abs_, fn in ('sum', 'prod'))
         if not ok:
             k = _line_klass(base, ln, lay, j, axis, row_dtype)
             k['got_is_array'] = isinstance(g, np.ndarray)
@@ -887,7 +925,7 @@ def _judge_cum(ctx, case, spec, lay, base, res, lines, exp_labels, full, violate
             continue
         g = canon.arr_values(v[:, j] if axis == 0 else v[j]) if v.ndim == 2 else []
         rel, abs_ = _tolerance(fn, len(ln.arr), ln.mag, _eps(v, np.empty(0, e[2])))
-        if len(g) != len(e[1]) or not all(_eq(x, y, rel, abs_) for x, y in zip(e[1], g)):
+        if len(g) != len(e[1]) or not all(_eq(x, y, rel, abs_, True) for x, y in zip(e[1], g)):
             k = _line_klass(base, ln, lay, j, axis, row_dtype)
             k['values_kind'] = v.dtype.kind
             violate('cell_mismatch', k, layout=F.layout_name(lay), line=j, line_values=canon.brief(canon.arr_cells(ln.arr), 300),
